@@ -99,6 +99,28 @@ var slotBuilders = []slotBuilder{
 		doc := ObjN("_id", l(), "f", l(), "sub", ObjN("arr", ArrN(l(), ArrN(l()), ObjN("deep", l()))))
 		return cmdTail(ObjN("insert", collN(coll), "documents", ArrN(doc), "ordered", keep(BoolN(true))), db)
 	}},
+	{"insert-batch-large", "insert", func(g *Gen, l func() *Node, coll, db string) *Node {
+		// bulk writes: batch sizes around powers of two and not divisible by small worker counts
+		docs := ArrN()
+		for i, n := 0, g.pick2(65, 70)+g.R.Intn(3)*31; i < n; i++ {
+			docs.Vals = append(docs.Vals, ObjN("_id", sens(NumN(g.Number()), "num", "cat-batch"), "v", l()))
+		}
+		return cmdTail(ObjN("insert", collN(coll), "documents", docs, "ordered", keep(BoolN(false))), db)
+	}},
+	{"update-batch-large", "update", func(g *Gen, l func() *Node, coll, db string) *Node {
+		us := ArrN()
+		for i, n := 0, 67+g.R.Intn(40); i < n; i++ {
+			us.Vals = append(us.Vals, ObjN("q", ObjN("k", l()), "u", ObjN("$set", ObjN("v", l())), "multi", FreeB(false)))
+		}
+		return cmdTail(ObjN("update", collN(coll), "updates", us, "ordered", keep(BoolN(false))), db)
+	}},
+	{"delete-batch-large", "delete", func(g *Gen, l func() *Node, coll, db string) *Node {
+		ds := ArrN()
+		for i, n := 0, 66+g.R.Intn(60); i < n; i++ {
+			ds.Vals = append(ds.Vals, ObjN("q", ObjN("k", l()), "limit", FreeI(1)))
+		}
+		return cmdTail(ObjN("delete", collN(coll), "deletes", ds, "ordered", keep(BoolN(false))), db)
+	}},
 	{"wupdate", "wupdate", func(g *Gen, l func() *Node, coll, db string) *Node {
 		return ObjN("q", ObjN("k", l()), "u", ObjN("$set", ObjN("v", l())), "multi", keep(BoolN(false)), "upsert", keep(BoolN(false)))
 	}},
